@@ -225,13 +225,12 @@ int close(int fd) {
     if (fd >= 0 && fd < MAXFD) g_tracked[fd] = 0;
     return real(fd);
   }
+  // The callback runs BEFORE the real close: afterwards the descriptor number may already
+  // have been handed to another thread's open.
   vshim_event e = {EV_CLOSE, fd, 0, 0, 0, 0, 0, 0, 0};
   g_tracked[fd] = 0;
-  int r = real(fd);
-  int err = errno;
-  call_post(&e, r, r < 0 ? err : 0);
-  errno = err;
-  return r;
+  call_post(&e, 0, 0);
+  return real(fd);
 }
 
 // ---------------------------------------------------------------- write
